@@ -439,6 +439,19 @@ func subFrames() mon.Sub {
 				c.Fail("frames/read/consumed", "ReadFrame consumed more or fewer bytes than header+length", det)
 				return
 			}
+			// "exactly length payload bytes": a stream that ends before the announced payload is complete is not a frame
+			if hl := len(w1) - s1; s1 > 0 {
+				for _, k := range []int{hl, hl + 1, hl + s1/2, len(w1) - 1} {
+					if k >= len(w1) {
+						continue
+					}
+					c.Count(1)
+					if got, err := ws.ReadFrame(xport.NewChunker(w1[:k], plan)); err == nil {
+						c.Fail("frames/read/truncated-accepted", fmt.Sprintf("ReadFrame returned no error (payload of %d bytes) for a stream holding only %d of the %d announced payload bytes", len(got.Payload), k-hl, s1), det)
+						return
+					}
+				}
+			}
 			// the Must* wrappers are the same codec
 			var mb bytes.Buffer
 			ws.MustWriteFrame(&mb, f1)
